@@ -1,6 +1,7 @@
 package memsyschk
 
 import (
+	"fmt"
 	"encoding/json"
 	"os"
 	"testing"
@@ -34,4 +35,18 @@ func TestDebugTrace(t *testing.T) {
 	_ = engine.Run()
 	_, f := memsys.CheckDrivers(a)
 	t.Log(f)
+}
+
+// TestDebugC32 prints the trace events of one task id for a C32 replay.
+func TestDebugC32(t *testing.T) {
+	p := os.Getenv("VERIF_DEBUG_C32")
+	if p == "" {
+		t.Skip()
+	}
+	b, _ := os.ReadFile(p)
+	var r kit.Replay
+	_ = json.Unmarshal(b, &r)
+	var c c32Case
+	_ = json.Unmarshal(r.Case, &c)
+	fmt.Println("case:", string(r.Case)[:min(len(r.Case), 1500)])
 }
